@@ -67,6 +67,18 @@ Theorem C20_malformed_rejected :
 Proof. exact malformed_rejected. Qed.
 Print Assumptions C20_malformed_rejected.
 
+(** Rejection does not depend on the order of the validations: the decoder rejects exactly the
+    token lists that have a defect (wrong count, a token outside the list, or - for twelve list
+    words - a checksum nibble that is not the checksum of the denoted entropy), and the error it
+    reports names a defect the phrase has.  (Which of several defects is reported is not fixed
+    by the property and is not compared by the correspondence.) *)
+Theorem C20_rejects_iff_defective :
+  forall (cks : N -> N -> N) ts,
+    (decode cks ts = None <-> defects cks ts <> []) /\
+    (forall d, named_defect (decode_res cks ts) = Some d -> In d (defects cks ts)).
+Proof. exact rejects_iff_defective. Qed.
+Print Assumptions C20_rejects_iff_defective.
+
 (** Seed and key are functions of the decoded entropy and of the index as a uint64
     (trivial for a Gallina function: the content is *what* is hashed). *)
 Theorem C20_derivation_deterministic :
